@@ -192,6 +192,24 @@ CONSTS = {
     "pdfhdr": b"%PDF-1.7\n",
     "pdfeof": b"%PDF-1.4\n%%EOF\n",
     "pdfxref": b"%PDF-1.4\nxref\n0 1\n0000000000 65535 f \ntrailer\n<< /Size 1 /Root 1 0 R >>\nstartxref\n9\n%%EOF\n",
+    # PDF structures that send a naive reader in circles: /Prev pointing at its own xref, a page tree whose kid is
+    # its own parent, an object stream that contains itself
+    "pdfprev": (b"%PDF-1.4\n1 0 obj\n<< /Type /Catalog /Pages 2 0 R >>\nendobj\n2 0 obj\n<< /Type /Pages /Kids [] /Count 0 >>\n"
+                b"endobj\nxref\n0 3\n0000000000 65535 f \n0000000009 00000 n \n0000000058 00000 n \ntrailer\n"
+                b"<< /Size 3 /Root 1 0 R /Prev 109 >>\nstartxref\n109\n%%EOF\n"),
+    "pdfkids": (b"%PDF-1.4\n1 0 obj\n<< /Type /Catalog /Pages 2 0 R >>\nendobj\n2 0 obj\n<< /Type /Pages /Kids [2 0 R 2 0 R] "
+                b"/Count 2 /Parent 2 0 R >>\nendobj\nxref\n0 3\n0000000000 65535 f \n0000000009 00000 n \n0000000058 00000 n \n"
+                b"trailer\n<< /Size 3 /Root 1 0 R >>\nstartxref\n134\n%%EOF\n"),
+    "pdfcount": (b"%PDF-1.4\n1 0 obj\n<< /Type /Catalog /Pages 2 0 R >>\nendobj\n2 0 obj\n<< /Type /Pages /Kids [3 0 R] "
+                 b"/Count 2000000000 >>\nendobj\n3 0 obj\n<< /Type /Page /Parent 2 0 R /MediaBox [0 0 9 9] >>\nendobj\nxref\n0 4\n"
+                 b"0000000000 65535 f \n0000000009 00000 n \n0000000058 00000 n \n0000000122 00000 n \ntrailer\n"
+                 b"<< /Size 4 /Root 1 0 R >>\nstartxref\n188\n%%EOF\n"),
+    # a page without /Resources whose /Parent chain never ends (KF-C01-03)
+    "pdfparent": (b"%PDF-1.4\n1 0 obj\n<< /Type /Catalog /Pages 2 0 R >>\nendobj\n2 0 obj\n<< /Type /Pages /Kids [3 0 R] /Count 1 >>\n"
+                  b"endobj\n3 0 obj\n<< /Type /Page /Parent 3 0 R /Contents 4 0 R >>\nendobj\n4 0 obj\n<< /Length 12 >>\nstream\n"
+                  b"BT (x) Tj ET\nendstream\nendobj\nxref\n0 5\n0000000000 65535 f \n0000000009 00000 n \n0000000058 00000 n \n"
+                  b"0000000115 00000 n \n0000000180 00000 n \ntrailer\n<< /Size 5 /Root 1 0 R >>\nstartxref\n242\n%%EOF\n"),
+    "pdfref": b"%PDF-1.4\n1 0 obj\n1 0 R\nendobj\ntrailer\n<< /Root 1 0 R /Size 2 >>\n%%EOF\n",
     "rtfopen": b"{\\rtf1" + b"{" * 3000,
     "rtfdeep": b"{\\rtf1 " + b"{\\b x" * 5000 + b"}" * 5000 + b"}",
     "rtfbin": b"{\\rtf1 \\bin99999999 abc}",
@@ -412,4 +430,69 @@ def ole_vector_evidence(data: bytes) -> dict:
                     continue
         except Exception:
             continue
+    return out
+
+
+# ------------------------------------------------------- KF-C01-02 / KF-C01-03 domain evidence (PDF structure cycles)
+import re as _re
+
+_PREV = _re.compile(rb"/Prev\s+(\d+)")
+_OBJ = _re.compile(rb"(\d+)\s+(\d+)\s+obj\b(.*?)endobj", _re.S)
+_PARENT = _re.compile(rb"/Parent\s+(\d+)\s+\d+\s+R")
+
+
+def pdf_cycle_evidence(data: bytes) -> dict:
+    """prevcycle: the chain startxref -> trailer /Prev -> ... revisits an offset (pypdf's
+    _read_xref_tables_and_trailers follows it without a visited set);  parentcycle: an object without /Resources
+    whose /Parent chain (through objects without /Resources) revisits an object (pypdf's _extract_text walks it
+    looking for inherited resources)."""
+    out = {"pdf": data[:1024].find(b"%PDF-") >= 0, "prevcycle": False, "parentcycle": False}
+    if not out["pdf"]:
+        return out
+    m = list(_re.finditer(rb"startxref\s+(\d+)", data))
+    if m:
+        off = int(m[-1].group(1))
+        seen = set()
+        for _ in range(10000):
+            if off in seen:
+                out["prevcycle"] = True
+                break
+            seen.add(off)
+            if off < 0 or off >= len(data):
+                break
+            chunk = data[off:off + 65536]
+            end = chunk.find(b"startxref")
+            if chunk.lstrip()[:4] == b"xref":
+                t = chunk.find(b"trailer")
+                if t < 0:
+                    break
+                seg = chunk[t:end if end > t else t + 4096]
+            else:
+                e2 = chunk.find(b"stream")
+                seg = chunk[:e2 if e2 > 0 else 4096]
+            pm = _PREV.search(seg)
+            if not pm:
+                break
+            off = int(pm.group(1))
+    objs = {}
+    for om in _OBJ.finditer(data[:4_000_000]):
+        objs[int(om.group(1))] = om.group(3)
+    for n, body in objs.items():
+        if b"/Resources" in body or b"/Parent" not in body:
+            continue
+        cur, seen = n, set()
+        for _ in range(10000):
+            if cur in seen:
+                out["parentcycle"] = True
+                break
+            seen.add(cur)
+            b = objs.get(cur)
+            if b is None or b"/Resources" in b:
+                break
+            pm = _PARENT.search(b)
+            if not pm:
+                break
+            cur = int(pm.group(1))
+        if out["parentcycle"]:
+            break
     return out
